@@ -46,6 +46,8 @@ def _rules():
             lambda R, c, rid: c16.rule_e(R, c, rid),
             lambda R, c, rid: c09_prims.rule_ds_running(R, c, rid),
             lambda R, c, rid: preds.rule(R, c, rid, ["idmap_contains", "block_is_deleted", "slice_is_deleted"]),
+            lambda R, c, rid: c16.rule_h(R, c, rid),
+            lambda R, c, rid: c16.rule_f(R, c, rid),
         ],
         "slice": [
             lambda R, c, rid: c13.rule_c(R, c, rid),
@@ -88,6 +90,9 @@ def _rules():
             lambda R, c, rid: c06.rule_e(R, c, rid),
             lambda R, c, rid: shared.known_state(R, c, rid),
         ],
+        "text-units": [
+            lambda R, c, rid: shared.text_units(R, c, rid),
+        ],
         "flags": [
             lambda R, c, rid: preds.rule(R, c, rid, ["flags_check"]),
             lambda R, c, rid: preds.flag_table(R, c, rid),
@@ -99,7 +104,7 @@ def _rules():
 DEPENDS = {
     "C01": ["squash", "splice", "partial", "flags", "stash-deletes", "lookup", "content", "export", "liveness", "block-wire", "merge", "state-vector"],
     "C02": ["stash-deletes", "lookup", "export", "block-wire", "merge", "state-vector"],
-    "C03": ["splice", "conflict", "lookup", "content", "map-api"],
+    "C03": ["splice", "conflict", "lookup", "content", "map-api", "text-units"],
     "C04": ["splice", "dependency", "stash-deletes", "lookup", "content", "block-iter"],
     "C05": ["conflict", "squash", "splice", "dependency", "map-api", "merge"],
     "C06": ["dependency", "delete-set", "slice", "partial", "lookup", "content", "merge", "state-vector"],
